@@ -29,7 +29,7 @@ Segments == {"Move", "Line", "Close", "QuadraticBezier", "CubicBezier", "Arc"}
 Shapes   == {"Path", "PathT", "Rect", "RRect", "Circle", "Ellipse", "SimpleLine", "Polyline", "Polygon"}
 LenShapes == {"RectLen", "CircleLen"}      \* cannot be decomposed before they are rendered: only copy and * apply
 Groups   == {"Group", "GroupNested", "GroupMixed"}
-AllOps   == {"copy", "mul", "abs", "topath", "inv", "matmul", "add", "radd", "mulid", "pathadd", "addpath", "subadd", "addsub", "pathiadd"}
+AllOps   == {"copy", "mul", "abs", "topath", "inv", "matmul", "add", "radd", "mulid", "pathadd", "addpath", "subadd", "addsub", "pathiadd", "pathaddview"}
 OpsOf(k) ==
   {"copy"} \cup
   (IF k \in Segments \cup Shapes \cup LenShapes \cup Groups \cup {"Point", "Matrix", "Text", "Image", "Subpath", "TextLen", "ImageLen"} THEN {"mul"} ELSE {}) \cup
@@ -39,13 +39,13 @@ OpsOf(k) ==
   (IF k \in {"Path", "PathT", "Point", "Length"} \cup Segments THEN {"add"} ELSE {}) \cup
   (IF k \in {"Path", "PathT"} THEN {"radd"} ELSE {}) \cup
   (IF k \in Segments THEN {"pathadd", "addpath", "subadd", "addsub"} ELSE {}) \cup
-  (IF k \in {"Path", "PathT"} THEN {"pathadd", "pathiadd"} ELSE {}) \cup                                   \* Path + x, x + Path (x a segment)                                      \* "path data" + x
+  (IF k \in {"Path", "PathT"} THEN {"pathadd", "pathiadd", "pathaddview"} ELSE {}) \cup                                   \* Path + x, x + Path (x a segment)                                      \* "path data" + x
   (IF k \in Segments \cup Shapes \cup Groups \cup {"Point", "Text", "Image", "Subpath"} THEN {"mulid"} ELSE {})   \* x * identity
 ResultKind(k, o) ==
   IF o = "topath" THEN "Path"
   ELSE IF o \in {"add", "pathadd", "addpath", "addsub"} /\ k \in Segments THEN "Path"
   ELSE IF o = "subadd" THEN "Subpath"
-  ELSE IF o \in {"pathadd", "pathiadd"} THEN "Path"
+  ELSE IF o \in {"pathadd", "pathiadd", "pathaddview"} THEN "Path"
   ELSE IF o \in {"mul", "mulid", "copy", "abs"} /\ k = "Subpath" THEN "Subpath"
   ELSE k
 AllMuts == {"setx", "imul", "seta", "post_translate", "reset", "imatmul", "setred", "setopacity", "iadd", "setamount", "imul_num",
